@@ -29,3 +29,7 @@ def assert_persim_from_repo():
     want = os.path.realpath(os.path.join(REPO, "persim"))
     if here != want:
         raise RuntimeError("persim imported from %s, expected %s" % (here, want))
+
+import warnings as _w
+
+_w.filterwarnings("ignore", category=SyntaxWarning)
